@@ -66,6 +66,8 @@ def run(ctx):
     for var, targets in VARIANTS:
         # traces of the targets sharing one constant assignment are concatenated (each starts with a reset event)
         tp = "%s-var-%s.ndjson" % (prefix, var or "contract")
+        if not all(os.path.exists("%s-%s.ndjson" % (prefix, t)) for t in targets):
+            continue      # the recording driver died (already reported as a violation by ctx.drive)
         with open(tp, "w") as out:
             for t in targets:
                 out.write(open("%s-%s.ndjson" % (prefix, t)).read())
